@@ -434,3 +434,16 @@ pub struct History {
     pub foreign: Vec<FileSpec>,
     pub ops: Vec<Op>,
 }
+
+/// File contents starting with `$LAYER` stand for the layer's own absolute directory (an
+/// explicit entry that names the very path an implicit entry would add).
+pub fn with_layer_path(f: &FileSpec, layer_abs: &[u8]) -> FileSpec {
+    match f.data.strip_prefix(b"$LAYER".as_slice()) {
+        Some(rest) => {
+            let mut data = layer_abs.to_vec();
+            data.extend_from_slice(rest);
+            FileSpec { path: f.path.clone(), data, mode: f.mode }
+        }
+        None => f.clone(),
+    }
+}
